@@ -2,11 +2,13 @@
 import os, hashlib, subprocess, glob, time
 
 VERIF = os.path.dirname(os.path.dirname(os.path.dirname(os.path.abspath(__file__))))
-OUT = os.path.join(VERIF, ".build", "mir")
+# MIRSMT_ROOT (development only): probe a scratch copy of the repository without disturbing the dumps of running checks
+ROOT = os.environ.get("MIRSMT_ROOT", "/repo")
+OUT = os.path.join(VERIF, ".build", "mir" if ROOT == "/repo" else "mir-dev")
 FEATURES = "compiled_data,verif_hooks"
 
 
-def tree_hash(root="/repo"):
+def tree_hash(root=ROOT):
     h = hashlib.sha256()
     files = sorted(glob.glob(os.path.join(root, "src", "**", "*.rs"), recursive=True))
     files += [os.path.join(root, "Cargo.toml"), os.path.join(root, "Cargo.lock")]
@@ -17,7 +19,7 @@ def tree_hash(root="/repo"):
     return h.hexdigest()
 
 
-def get_dump(debug_assertions=True, root="/repo"):
+def get_dump(debug_assertions=True, root=ROOT):
     """-> (path, seconds spent, tree hash). debug_assertions selects the cfg(debug_assertions) code."""
     os.makedirs(OUT, exist_ok=True)
     th = tree_hash(root)
